@@ -32,12 +32,12 @@ type SymPtr struct {
 }
 
 type Fail struct {
-	ID     string // assertion id, or "panic:..." / "unwind"
-	Kind   string // assert | panic | unwind
+	ID     string    // assertion id, or "panic:..." / "unwind"
+	Kind   string    // assert | panic | unwind
 	Snap   GuardSnap // state guard
 	Extra  *Term     // extra conjunct (nil: none)
 	Cond   *Term     // asserted condition (nil: definitely violated)
-	Known  *Term  // known-finding region (nil: none)
+	Known  *Term     // known-finding region (nil: none)
 	KFID   string
 	Where  string
 	Detail string
@@ -50,21 +50,21 @@ type AssertStat struct {
 }
 
 type ObsEntry struct {
-	Seq   int
-	Snap  GuardSnap
-	Name  string
-	Val   Value // Int or *Term
-	W     uint8
+	Seq  int
+	Snap GuardSnap
+	Name string
+	Val  Value // Int or *Term
+	W    uint8
 }
 
 type Config struct {
-	Unwind       int  // max loop-header visits per activation
-	CheckComplex bool // solver feasibility check for multi-variable branch conditions
-	ExactBytes   bool // re-check residual terms of cubes on every value-set refinement
+	Unwind         int  // max loop-header visits per activation
+	CheckComplex   bool // solver feasibility check for multi-variable branch conditions
+	ExactBytes     bool // re-check residual terms of cubes on every value-set refinement
 	FeasTimeoutMs  int
 	FinalTimeoutMs int
-	MaxStates    int
-	Trace        bool
+	MaxStates      int
+	Trace          bool
 }
 
 type Stats struct {
@@ -135,8 +135,8 @@ type Engine struct {
 	callStk  []string
 	g        *Guards
 	spec     JobSpec
-	conc     *Vector  // concrete mode: nondeterministic inputs come from this vector
-	clog     []string // concrete mode: observation log
+	conc     *Vector         // concrete mode: nondeterministic inputs come from this vector
+	clog     []string        // concrete mode: observation log
 	loads    map[string]bool // globals loaded (footprint)
 	gstores  map[string]bool // globals stored outside init (footprint)
 }
@@ -145,7 +145,7 @@ func NewEngine(p *Program, cfg Config) *Engine {
 	e := &Engine{P: p, ts: NewTerms(), cfg: cfg,
 		globals: map[*ssa.Global]int32{}, asserts: map[string]*AssertStat{}, reach: map[string][]GuardSnap{},
 		entered: map[*ssa.Function]int{}, pool: map[*FnInfo][][]Value{}, consts: map[*ssa.Const]Value{},
-		varByNm: map[string]*Term{},  kfAccept: map[string]bool{}, loads: map[string]bool{}, gstores: map[string]bool{}}
+		varByNm: map[string]*Term{}, kfAccept: map[string]bool{}, loads: map[string]bool{}, gstores: map[string]bool{}}
 	e.g = NewGuards(e)
 	return e
 }
